@@ -42,29 +42,29 @@ CAL_MAX_STEPS = {           # {tier: {method: steps}}
 CAL_MAX_INFERS = {'quick': 2252, 'thorough': 2252}
 # maximum work of one query at the largest n (64; rings: 40) observed per scaling family
 CAL_STEPS64 = {
-    'assign_chain': 40620, 'assign_diamonds': 47394, 'attr_diamonds': 66075,
-    'builtin_call_chain': 51615, 'builtin_op_chain': 49957, 'call_chain': 4449,
-    'call_tree': 47727, 'chain_A': 111570, 'chain_C': 61028, 'chain_D': 70801, 'chain_G': 109389,
-    'chain_H': 498514, 'chain_I': 101970, 'chain_L': 129917, 'chain_P': 150204, 'chain_Q': 74208,
-    'chain_R': 43529, 'chain_S': 35120, 'chain_T': 162489, 'chain_U': 56785, 'chain_X': 136833,
-    'decorator_chain': 41570, 'diamonds': 417172, 'import_chain': 44103, 'inherit_chain': 74709,
-    'instance_tree': 112081, 'method_chain_builtin': 87808, 'nested_closures': 5014,
-    'nested_containers': 46100, 'ring_A': 28630, 'ring_C': 50742, 'ring_D': 51237,
-    'ring_G': 28409, 'ring_H': 315515, 'ring_I': 24903, 'ring_L': 119629, 'ring_P': 90249,
-    'ring_Q': 44115, 'ring_R': 26154, 'ring_S': 33492, 'ring_T': 92421, 'ring_U': 46137,
+    'assign_chain': 40620, 'assign_diamonds': 47392, 'attr_diamonds': 66075,
+    'builtin_call_chain': 51612, 'builtin_op_chain': 49960, 'call_chain': 22111,
+    'call_tree': 47737, 'chain_A': 111574, 'chain_C': 61036, 'chain_D': 70789, 'chain_G': 109389,
+    'chain_H': 498514, 'chain_I': 101970, 'chain_L': 129914, 'chain_P': 150208, 'chain_Q': 74208,
+    'chain_R': 43529, 'chain_S': 35140, 'chain_T': 162488, 'chain_U': 56785, 'chain_X': 136833,
+    'decorator_chain': 41570, 'diamonds': 417169, 'import_chain': 44103, 'inherit_chain': 74709,
+    'instance_tree': 112084, 'method_chain_builtin': 87805, 'nested_closures': 332517,
+    'nested_containers': 46108, 'ring_A': 28630, 'ring_C': 50750, 'ring_D': 51237,
+    'ring_G': 28411, 'ring_H': 315519, 'ring_I': 24903, 'ring_L': 119629, 'ring_P': 90249,
+    'ring_Q': 44115, 'ring_R': 26158, 'ring_S': 33500, 'ring_T': 92425, 'ring_U': 46133,
     'ring_X': 84677}
 # maximum work of one query over all n observed per scaling family (hard-stop budget of (b))
 CAL_STEPS_FAM = {
-    'assign_chain': 40620, 'assign_diamonds': 47394, 'attr_diamonds': 66075,
-    'builtin_call_chain': 51617, 'builtin_op_chain': 49959, 'call_chain': 35716,
-    'call_tree': 87924, 'chain_A': 111570, 'chain_C': 61028, 'chain_D': 70801, 'chain_G': 109389,
-    'chain_H': 498514, 'chain_I': 101970, 'chain_L': 129917, 'chain_P': 150204, 'chain_Q': 74208,
-    'chain_R': 43529, 'chain_S': 35120, 'chain_T': 162489, 'chain_U': 56785, 'chain_X': 136833,
-    'decorator_chain': 41570, 'diamonds': 417172, 'import_chain': 44103, 'inherit_chain': 74709,
-    'instance_tree': 365542, 'method_chain_builtin': 87808, 'nested_closures': 36855,
-    'nested_containers': 46100, 'ring_A': 28630, 'ring_C': 50742, 'ring_D': 51237,
-    'ring_G': 28409, 'ring_H': 315515, 'ring_I': 24903, 'ring_L': 119629, 'ring_P': 90249,
-    'ring_Q': 44115, 'ring_R': 26154, 'ring_S': 33492, 'ring_T': 92421, 'ring_U': 46137,
+    'assign_chain': 40620, 'assign_diamonds': 47392, 'attr_diamonds': 66075,
+    'builtin_call_chain': 51616, 'builtin_op_chain': 49960, 'call_chain': 35716,
+    'call_tree': 87934, 'chain_A': 111574, 'chain_C': 61036, 'chain_D': 70789, 'chain_G': 109389,
+    'chain_H': 498514, 'chain_I': 101970, 'chain_L': 129914, 'chain_P': 150208, 'chain_Q': 74208,
+    'chain_R': 43529, 'chain_S': 35140, 'chain_T': 162488, 'chain_U': 56785, 'chain_X': 136833,
+    'decorator_chain': 41570, 'diamonds': 417169, 'import_chain': 44103, 'inherit_chain': 74709,
+    'instance_tree': 365544, 'method_chain_builtin': 87805, 'nested_closures': 332517,
+    'nested_containers': 46108, 'ring_A': 28630, 'ring_C': 50750, 'ring_D': 51237,
+    'ring_G': 28411, 'ring_H': 315519, 'ring_I': 24903, 'ring_L': 119629, 'ring_P': 90249,
+    'ring_Q': 44115, 'ring_R': 26158, 'ring_S': 33500, 'ring_T': 92425, 'ring_U': 46133,
     'ring_X': 84677}
 FACTOR = 20
 # deepest python stack (frames above the query call, sampled at every 32nd counted entry) observed
@@ -72,21 +72,21 @@ FACTOR = 20
 # is "recursing instead of giving up" even while the step count stays small
 # (measured on /repo 4c200d4, scaling stage only: JV_C15_LEVELS=s JV_C15_CALIBRATE=1)
 CAL_DEPTH_FAM = {
-    'assign_chain': 1446, 'assign_diamonds': 1958, 'attr_diamonds': 2198,
-    'builtin_call_chain': 696, 'builtin_op_chain': 693, 'call_chain': 392, 'call_tree': 390,
-    'chain_A': 1603, 'chain_C': 390, 'chain_D': 560, 'chain_G': 1410, 'chain_H': 231,
-    'chain_I': 884, 'chain_L': 809, 'chain_P': 532, 'chain_Q': 707, 'chain_R': 482,
-    'chain_S': 449, 'chain_T': 2979, 'chain_U': 796, 'chain_X': 499, 'decorator_chain': 274,
-    'diamonds': 339, 'import_chain': 948, 'inherit_chain': 270, 'instance_tree': 2198,
-    'method_chain_builtin': 987, 'nested_closures': 468, 'nested_containers': 269,
-    'ring_A': 1017, 'ring_C': 390, 'ring_D': 560, 'ring_G': 904, 'ring_H': 162, 'ring_I': 570,
-    'ring_L': 809, 'ring_P': 533, 'ring_Q': 707, 'ring_R': 482, 'ring_S': 450, 'ring_T': 2064,
-    'ring_U': 796, 'ring_X': 497}
+    'assign_chain': 1447, 'assign_diamonds': 1959, 'attr_diamonds': 2199,
+    'builtin_call_chain': 697, 'builtin_op_chain': 697, 'call_chain': 393, 'call_tree': 391,
+    'chain_A': 1604, 'chain_C': 391, 'chain_D': 561, 'chain_G': 1411, 'chain_H': 231,
+    'chain_I': 885, 'chain_L': 810, 'chain_P': 533, 'chain_Q': 708, 'chain_R': 483,
+    'chain_S': 451, 'chain_T': 2980, 'chain_U': 797, 'chain_X': 499, 'decorator_chain': 284,
+    'diamonds': 340, 'import_chain': 949, 'inherit_chain': 273, 'instance_tree': 2199,
+    'method_chain_builtin': 990, 'nested_closures': 1383, 'nested_containers': 814,
+    'ring_A': 1018, 'ring_C': 390, 'ring_D': 561, 'ring_G': 905, 'ring_H': 228, 'ring_I': 571,
+    'ring_L': 813, 'ring_P': 534, 'ring_Q': 708, 'ring_R': 483, 'ring_S': 449, 'ring_T': 2067,
+    'ring_U': 797, 'ring_X': 500}
 DEPTH_SAMPLE_MASK = 31
 DEPTH_FACTOR = 1.5      # depth(family, n) <= DEPTH_FACTOR * calibrated + DEPTH_C
 DEPTH_C = 100
 GROWTH = 8              # steps(2n) <= GROWTH * steps(n) + GROWTH_C   for n >= 8
-GROWTH_C = 5000
+GROWTH_C = 20000          # absorbs one-off steps of cheap memo-served queries (208 -> 8.6k, then flat)
 NS = [1, 2, 4, 8, 16, 32, 64]
 NS_RING = [1, 2, 4, 8, 16, 32, 40]   # the property speaks of cyclic graphs of up to 40 nodes
 WATCHDOG_S = 600          # CPU seconds of the worker per program (ITIMER_VIRTUAL: load independent)
@@ -223,6 +223,29 @@ def _alarm(signum, frame):
     raise _Watchdog()
 
 
+def host_recursion_limit():
+    """The interpreter recursion limit that a host with the DEFAULT limit has after importing
+    jedi from $JV_REPO (3000 on the pinned tree: jedi/api/__init__.py raises it at import).
+    Measured in a clean child interpreter; every worker runs all its queries under that limit
+    (jv.pool raises the limit of its workers to 3000 before jedi is even imported, which would
+    hide what jedi itself does or does not do about the limit)."""
+    v = os.environ.get('JV_C15_HOSTLIMIT')
+    if not v:
+        import subprocess
+        env = {k: x for k, x in os.environ.items() if k not in ('LD_PRELOAD', 'PYTHONPATH')}
+        out = subprocess.run(
+            [sys.executable, '-B', '-c',
+             'import sys; sys.path.insert(0, sys.argv[1]); import jedi; '
+             'print(sys.getrecursionlimit())', os.path.abspath(boot.REPO)],
+            env=env, capture_output=True, text=True, timeout=600)
+        v = out.stdout.strip().splitlines()[-1] if out.returncode == 0 and out.stdout.strip() \
+            else ''
+        if not v.isdigit():
+            raise RuntimeError('cannot measure the host recursion limit: %s' % out.stderr[-500:])
+        os.environ['JV_C15_HOSTLIMIT'] = v
+    return int(v)
+
+
 def _init():
     jedi = boot.boot()
     env = boot.environment()
@@ -241,6 +264,7 @@ def _init():
     jedi.Script(code, path=p, environment=env, project=project).infer(7, 6)
     jedi.Script(code, path=p, environment=env, project=project).get_signatures(8, 2)
     jedi.Script(code, path=p, environment=env, project=project).get_references(7, 0)
+    sys.setrecursionlimit(host_recursion_limit())
 
 
 # ----------------------------------------------------------------------------- probes
@@ -319,8 +343,14 @@ def _touch(method, res):
 
 def _one_query(jedi, env, project, code, path, method, line, col, limit):
     """One query on a fresh Script under the step counter.
-    -> dict(steps, infers, n, fail=None|dict(site, tb, cls))"""
+    -> dict(steps, infers, n, depth, fail=None|dict(site, tb, cls))"""
     script = jedi.Script(code, path=path, environment=env, project=project)
+    return _measure(lambda: _touch(method, getattr(script, method)(line, col)),
+                    method, limit, script)
+
+
+def _measure(thunk, method, limit, script):
+    """Run thunk() under the step counter, the budget and the depth sampler."""
     base = 0
     f = sys._getframe()
     while f is not None:
@@ -335,7 +365,7 @@ def _one_query(jedi, env, project, code, path, method, line, col, limit):
     n = None
     try:
         try:
-            n = _touch(method, getattr(script, method)(line, col))
+            n = thunk()
         finally:
             steps = _C.count
             _C.limit = None
@@ -362,6 +392,37 @@ def _one_query(jedi, env, project, code, path, method, line, col, limit):
         infers = -1
     return {'steps': steps, 'infers': infers, 'n': n, 'fail': fail,
             'depth': max(0, _C.maxdepth - base)}
+
+
+# ---- two-step queries: Name/Completion objects infer lazily, after the Script method returned
+
+LAZY_METHODS = ['infer', 'goto', 'docstring', 'get_signatures', 'get_type_hint', 'defined_names',
+                'execute']
+LAZY_PICKS = [0, 1, -2, -1]      # first two and last two results of every source
+
+
+def _lazy_sources(task, files):
+    """-> [(source label, line, col, getter(script))] on main.py."""
+    lines = files['main.py'].split('\n')
+    if task['kind'] == 'scale':
+        word = 'r'
+        ln = max(i for i, s in enumerate(lines, 1) if s.startswith('r = ')) + 1   # `r.x` / `r.a`
+        src = [('get_names', 0, 0, lambda sc: sc.get_names(all_scopes=True)),
+               ('search', 0, 0, lambda sc: sc.search(word)),
+               ('goto', ln, 0, lambda sc: sc.goto(ln, 0)),
+               ('complete', ln, 1, lambda sc: sc.complete(ln, 1))]
+    else:
+        src = [('get_names', 0, 0, lambda sc: sc.get_names(all_scopes=True))]
+    return src
+
+
+def _touch_lazy(res):
+    if isinstance(res, str) or res is None:
+        return len(res or '')
+    res = list(res)
+    for r in canon.cap(res):
+        r.name, r.type
+    return len(res)
 
 
 def _where(e):
@@ -398,6 +459,7 @@ def _work(task):
     table = {}
     dtable = {}
     max_depth = 0
+    lazy_max = [0, None]
     nonempty = 0
     total_steps = 0
     if _C.warnings is not None:
@@ -405,11 +467,63 @@ def _work(task):
     aborted = False
     calibrating = False
     counter_broken = None
+    sys.setrecursionlimit(host_recursion_limit())
     signal.setitimer(signal.ITIMER_VIRTUAL, float(task.get('watchdog', WATCHDOG_S)))
     signal.alarm(WATCHDOG_WALL_S)
     t0 = time.time()
     cpu0 = time.process_time()
     try:
+        def limit_for(method):
+            nonlocal calibrating
+            limit = task.get('limit')
+            if limit is None:
+                limit = budget_for(method, task.get('tier'))
+                if task['kind'] == 'scale':
+                    limit = budget_family(task['family'])
+            elif limit == 0:
+                limit = None     # calibration: count only
+                calibrating = True
+            return limit
+
+        def account(r, rel, method, line, col, code, direct):
+            nonlocal nq, total_steps, max_infers, counter_broken, nonempty, max_depth, aborted
+            nq += 1
+            total_steps += r['steps']
+            npos.add((rel, line, col))
+            label = '%s:%s@%d,%d' % (rel, method, line, col)
+            if direct:
+                cur = per_method.get(method)
+                if cur is None or r['steps'] > cur[0]:
+                    per_method[method] = [r['steps'], label]
+            elif r['steps'] > lazy_max[0]:
+                lazy_max[:] = [r['steps'], label]
+            max_infers = max(max_infers, r['infers'])
+            if direct and r['infers'] > r['steps'] and counter_broken is None:
+                counter_broken = [label, r['steps'], r['infers']]
+            if r['n'] and method == 'infer' and col > 0 \
+                    and code.split('\n')[line - 1][col - 1:col] == '.':
+                nonempty += 1      # a payload attribute (`.a`, `.b`, `.x`) resolved
+            classes.add('%s/%s/%s/2^%d' % (layout, method.split('[')[0] + method.split(']')[-1],
+                                           'some' if r['n'] else 'none',
+                                           max(r['steps'], 1).bit_length()))
+            if task['kind'] == 'scale':
+                table[label] = r['steps']
+                dtable[label] = r['depth']
+            max_depth = max(max_depth, r['depth'])
+            f = r['fail']
+            ib = infers_budget(task.get('tier'))
+            if f is None and ib and not calibrating and r['infers'] > ib:
+                f = {'site': 'infer-count-exceeded@%s' % method, 'cls': 'budget',
+                     'tb': 'sum(inferred_element_counts) = %d > %d x %d'
+                           % (r['infers'], FACTOR, ib // FACTOR)}
+            if f is not None:
+                f = dict(f, probe=[rel, method, line, col], steps=r['steps'],
+                         infers=r['infers'])
+                fails.append(f)
+                if f['cls'] == 'budget' and f['site'].startswith('step-budget'):
+                    _after_abort()
+                    aborted = True     # the remaining probes of this program are skipped
+
         for rel in sorted(probes):
             code = files[rel]
             path = os.path.join(d, rel)
@@ -418,48 +532,42 @@ def _work(task):
                     continue
                 if aborted:
                     break
-                limit = task.get('limit')
-                if limit is None:
-                    limit = budget_for(method, task.get('tier'))
-                    if task['kind'] == 'scale':
-                        limit = budget_family(task['family'])
-                elif limit == 0:
-                    limit = None     # calibration: count only
-                    calibrating = True
                 env = boot.environment()
-                r = _one_query(jedi, env, project, code, path, method, line, col, limit)
-                nq += 1
-                total_steps += r['steps']
-                npos.add((rel, line, col))
-                label = '%s:%s@%d,%d' % (rel, method, line, col)
-                cur = per_method.get(method)
-                if cur is None or r['steps'] > cur[0]:
-                    per_method[method] = [r['steps'], label]
-                max_infers = max(max_infers, r['infers'])
-                if r['infers'] > r['steps'] and counter_broken is None:
-                    counter_broken = [label, r['steps'], r['infers']]
-                if r['n'] and method == 'infer' and col > 0 \
-                        and code.split('\n')[line - 1][col - 1:col] == '.':
-                    nonempty += 1      # a payload attribute (`.a`, `.b`, `.x`) resolved
-                classes.add('%s/%s/%s/2^%d' % (layout, method, 'some' if r['n'] else 'none',
-                                               max(r['steps'], 1).bit_length()))
-                if task['kind'] == 'scale':
-                    table[label] = r['steps']
-                    dtable[label] = r['depth']
-                max_depth = max(max_depth, r['depth'])
-                f = r['fail']
-                ib = infers_budget(task.get('tier'))
-                if f is None and ib and not calibrating and r['infers'] > ib:
-                    f = {'site': 'infer-count-exceeded@%s' % method, 'cls': 'budget',
-                         'tb': 'sum(inferred_element_counts) = %d > %d x %d'
-                               % (r['infers'], FACTOR, ib // FACTOR)}
-                if f is not None:
-                    f = dict(f, probe=[rel, method, line, col], steps=r['steps'],
-                             infers=r['infers'])
-                    fails.append(f)
-                    if f['cls'] == 'budget' and f['site'].startswith('step-budget'):
-                        _after_abort()
-                        aborted = True     # the remaining probes of this program are skipped
+                r = _one_query(jedi, env, project, code, path, method, line, col,
+                               limit_for(method))
+                account(r, rel, method, line, col, code, True)
+
+        # two-step queries on main.py: one fresh Script per source, its results are asked lazily
+        code = files['main.py']
+        path = os.path.join(d, 'main.py')
+        for src, line, col, getter in _lazy_sources(task, files):
+            first = 'two-step:' + src
+            if only and (only[0] != 'main.py' or not (
+                    only[1] == first or only[1].startswith(src + '['))):
+                continue
+            if aborted:
+                break
+            env = boot.environment()
+            script = jedi.Script(code, path=path, environment=env, project=project)
+            holder = {}
+            r0 = _measure(lambda: len(holder.setdefault('names', list(getter(script)))),
+                          first, limit_for(src), script)
+            if not only or only[1] == first:
+                account(r0, 'main.py', first, line, col, code, False)
+            names = holder.get('names', []) if r0['fail'] is None else []
+            for pick in LAZY_PICKS:
+                if not (-len(names) <= pick < len(names)):
+                    continue
+                obj = names[pick]
+                for lm in LAZY_METHODS:
+                    method = '%s[%d].%s' % (src, pick, lm)
+                    if only and only[1] != method:
+                        continue
+                    if aborted or not hasattr(obj, lm):
+                        continue
+                    r = _measure(lambda: _touch_lazy(getattr(obj, lm)()), method,
+                                 limit_for(lm), script)
+                    account(r, 'main.py', method, line, col, code, False)
     except _Watchdog:
         steps = _C.count
         _C.limit = None
@@ -477,7 +585,7 @@ def _work(task):
     return {'fails': fails, 'nq': nq, 'npos': len(npos), 'per_method': per_method,
             'max_infers': max_infers, 'classes': sorted(classes), 'layout': layout,
             'warnings': dict(_C.warnings or {}), 'table': table, 'dtable': dtable,
-            'max_depth': max_depth, 'nonempty': nonempty,
+            'max_depth': max_depth, 'lazy_max': lazy_max, 'nonempty': nonempty,
             'aborted': aborted, 'counter_broken': counter_broken, 'files': files_out,
             'cpu': round(time.process_time() - cpu0, 3),
             'total_steps': sum(table.values()) if False else total_steps}
@@ -625,6 +733,11 @@ def _scaling_verdicts(tables, emit):
 def run(ctx):
     calibrate = bool(os.environ.get('JV_C15_CALIBRATE'))
     _TIER[0] = ctx.tier
+    try:
+        host_limit = host_recursion_limit()     # also exported to the workers (environment)
+    except Exception as e:
+        ctx.harness_error('host recursion limit: %r' % (e,))
+        return
     if not CAL_MAX_STEPS.get(ctx.tier) and not calibrate:
         ctx.harness_error('C15 is not calibrated (CAL_MAX_STEPS empty)')
         return
@@ -643,6 +756,7 @@ def run(ctx):
     stopped_early = False
     cpu = [0.0, 0]
     obs_depth_a = [0]
+    obs_lazy = [0, None]
 
     known = findings.load(ID)
     # maintenance aid: explore everything even after a violation (to list all failing inputs)
@@ -678,6 +792,8 @@ def run(ctx):
             if m not in obs_max or steps > obs_max[m][0]:
                 obs_max[m] = [steps, t['id'] + '|' + label]
         obs_max_infers = max(obs_max_infers, r['max_infers'])
+        if r.get('lazy_max') and r['lazy_max'][0] > obs_lazy[0]:
+            obs_lazy[:] = [r['lazy_max'][0], t['id'] + '|' + str(r['lazy_max'][1])]
         if t['kind'] == 'graph':
             obs_depth_a[0] = max(obs_depth_a[0], r.get('max_depth', 0))
         if r['counter_broken']:
@@ -852,6 +968,10 @@ def run(ctx):
         'observed_max_steps_this_run': obs_max, 'observed_max_infers_this_run': obs_max_infers,
         'observed_steps64_this_run': obs64, 'observed_family_max_this_run': obsfam,
         'calibrated_family_max': CAL_STEPS_FAM,
+        'host_recursion_limit_after_import_jedi': host_limit,
+        'two_step_sources': ['get_names(all_scopes)', 'search', 'goto', 'complete'],
+        'two_step_lazy_methods': LAZY_METHODS, 'two_step_picks': LAZY_PICKS,
+        'observed_max_steps_two_step_this_run': obs_lazy,
         'calibrated_family_stack_depth': CAL_DEPTH_FAM,
         'observed_family_stack_depth_this_run': obsdepth,
         'scaling_stack_depth_per_n': depth_series, 'depth_bounds_checked': ndepth,
@@ -881,6 +1001,12 @@ def run(ctx):
         'a program whose forward module-level references would be dead in one file (jedi and '
         'Python do not see a later binding of the same scope) is laid out as one module per '
         'node; programs are not required to run (self inheritance, import cycles)',
+        'two-step queries: on main.py of every program the results of get_names(all_scopes=True) '
+        '(scaling programs: also search(<last name>), goto and complete at the probe line) are '
+        'taken at positions %s and each of %s is called on them, in this order, on the Script '
+        'that produced them; same oracle (no exception, step budget, stack depth) per call; all '
+        'queries run under the recursion limit a default host has after `import jedi`'
+        % (LAZY_PICKS, LAZY_METHODS),
         'completion is asked after dots only; get_references on payload attributes only in '
         'main.py',
         'the watchdog (%d CPU-seconds / %d wall seconds per program) never produces a verdict on '
